@@ -132,7 +132,17 @@ def native_check(contract, conc, rtol=RTOL):
 
 
 def _rand_assign(rng, syms, k):
-    return {s: sp.Rational(int(rng.integers(-7, 8)), int(rng.integers(1, 6))) for s in syms}
+    """random rational point respecting the declared range of a symbol (preconditions such as 0<=rate<=1)"""
+    out = {}
+    for s in syms:
+        rg = getattr(s, '_vf_range', None)
+        if rg is not None:
+            out[s] = sp.Rational(rg[0]) + (sp.Rational(rg[1]) - sp.Rational(rg[0])) * sp.Rational(int(rng.integers(0, 9)), 8)
+        elif s.is_nonnegative:
+            out[s] = sp.Rational(int(rng.integers(0, 8)), int(rng.integers(1, 6)))
+        else:
+            out[s] = sp.Rational(int(rng.integers(-7, 8)), int(rng.integers(1, 6)))
+    return out
 
 
 def verify_identity(contract, shape, tier, rng, crosscheck=2, bounded_samples=0):
